@@ -25,10 +25,12 @@ Init ==
 
 NextSlot == Cardinality({i \in Idents : \E r \in Replica : chain[r][i] # <<>> \/ tchain[r][i] # <<>>} \cup {i \in Idents : hchain[i] # <<>>}) + 1
 
-NewIdent(r) ==
-  /\ NextSlot \in Idents
-  /\ chain' = [chain EXCEPT ![r][NextSlot] = <<nver + 1>>]
-  /\ nver' = nver + 1
+(* k = 1: one version.  k = 2: metadata was set after the id had been handed out (the id is derived from the first version, which
+   therefore can no longer change): the metadata goes into a second version, both are written by the first commit *)
+NewIdent(r, k) ==
+  /\ NextSlot \in Idents /\ k \in 1..2
+  /\ chain' = [chain EXCEPT ![r][NextSlot] = [j \in 1..k |-> nver + j]]
+  /\ nver' = nver + k
   /\ res' = [kind |-> "new", r |-> r, i |-> NextSlot]
   /\ UNCHANGED <<tchain, hchain>>
 
